@@ -837,6 +837,7 @@ pub fn c10_crafted(part: &mut Part) {
                     if i >= n {
                         break;
                     }
+                    crate::report::watchdog_leaf(|| json!({"engine": "damage-crafted", "first_entry": entries[i].0}).to_string());
                     let mut seqs: Vec<Vec<usize>> = vec![vec![i]];
                     if TINY || !quick {
                         for j in 0..n {
@@ -884,6 +885,7 @@ pub fn c10_crafted(part: &mut Part) {
                         c10_eval(&mut env, &dir, &img, || json!({"engine":"damage-crafted","entries":names}));
                     }
                 }
+                crate::report::watchdog_idle();
                 merged.lock().unwrap().merge(std::mem::take(&mut env.stats));
             });
         }
